@@ -3528,7 +3528,7 @@ func ruleJoinOperandsAsGiven(id string) func(*Checker) {
 // ruleHashPrefixEmpty — the directory name is a function of the tree alone.
 func ruleHashPrefixEmpty(id string) func(*Checker) {
 	return func(c *Checker) {
-		c.rule(id, "Every call of dirhash.HashDir in the bundle package passes the empty constant as prefix: the prefix is put in front of every hashed file name, so a prefix made of anything about the request (source type, address) gives byte-identical trees different directory names — packages with the same paths and contents no longer share one directory.", 1)
+		c.rule(id, "Every call of dirhash.HashDir in the bundle package passes a constant as prefix (today the empty one): the prefix is put in front of every hashed file name, so a prefix computed from anything about the request (source type, address) gives byte-identical trees different directory names — packages with the same paths and contents no longer share one directory.", 1)
 		p := c.P
 		n := 0
 		for _, fn := range p.Funcs {
@@ -3540,8 +3540,8 @@ func ruleHashPrefixEmpty(id string) func(*Checker) {
 					continue
 				}
 				n++
-				s, isC := constString(ci.Common().Args[1])
-				c.check(isC && s == "", id, p.FuncName(fn), "hash prefix is empty", p.Pos(ci.Pos()), "dirhash.HashDir(dir, \"\", …)", "the content hash is taken with a prefix that is not the empty constant: the directory name depends on more than the package's files")
+				_, isC := constString(ci.Common().Args[1])
+				c.check(isC, id, p.FuncName(fn), "hash prefix is a constant", p.Pos(ci.Pos()), "dirhash.HashDir(dir, <constant>, …)", "the content hash is taken with a prefix that is computed (from the source type, the address, …): the directory name depends on more than the package's files")
 			}
 		}
 		c.check(n > 0, id, "-", "content hash taken", "-", fmt.Sprintf("%d call(s)", n), "dirhash.HashDir is no longer called in the bundle package")
